@@ -108,7 +108,7 @@ def _uses(ob, name):
 
 
 Z3_CLI = os.environ.get("PYVC_Z3", "z3-new")
-SCHEDULE = (("rel2", 0, 4), ("all", 0, 5), ("rel1", 7, 5), ("rel3", 7, 8), ("all", 42, 12), ("rel2", 99, 10), ("all", 1234, 20))
+SCHEDULE = (("rel2", 0, 4), ("all", 0, 6), ("rel1", 7, 5), ("all", 0, 20), ("rel3", 7, 8), ("all", 42, 15), ("rel2", 99, 12), ("all", 0, 60))
 # (hypothesis selection, random seed, hard wall-clock seconds); "relN" = relevance closure of depth N (sound weakening)
 
 
@@ -166,10 +166,73 @@ def _cvc5(smt, timeout_s=20):
     return r
 
 
+class Rec:
+    """picklable obligation record (SMT-LIB text instead of z3 terms)"""
+
+    def __init__(self, ob, smts):
+        self.name, self.kind, self.where, self.func, self.clause = ob.name, ob.kind, ob.where, ob.func, ob.clause
+        self.status, self.time_ms, self.backend, self.model = ob.status, ob.time_ms, ob.backend, ob.model
+        self.smts = smts
+        self._smt = (smts or {}).get("all", "")
+        self.nhyps = len(ob.hyps)
+
+    def key(self):
+        return f"{self.func}::{self.kind}::{self.clause}"
+
+
+def prepare(ob):
+    """z3 obligation -> Rec (done in the process that generated the obligation)"""
+    if ob.status == "trivial" or z3.is_true(z3.simplify(ob.goal)):
+        ob.status = "trivial"
+        ob.time_ms = 0.0
+        ob.backend = "simplifier"
+        return Rec(ob, None)
+    smt = to_smt2(ob)
+    extra = []
+    if "POW" in smt:
+        extra += pow_axioms(mono="POW_MONO" in (getattr(ob, "lemmas", None) or []))
+    if "SUM" in smt and ob.kind != "lemma":
+        extra += sum_axioms_nonrecursive()
+    lem = getattr(ob, "lemmas", None)
+    if lem:
+        from .lemmas import sum_lemma_axiom
+        extra += [sum_lemma_axiom(n) for n in lem if n != "POW_MONO"]
+        if "SUM" not in smt:
+            extra += sum_axioms_nonrecursive()
+    if extra:
+        smt = to_smt2(ob, extra)
+    smts = {"all": smt}
+    if not ob.kind.startswith("canary") and len(ob.hyps) > 12 and ob.kind != "lemma":
+        for d in (1, 2, 3):
+            smts[f"rel{d}"] = to_smt2(ob, extra, hyps=relevant_hyps(ob, d))
+    return Rec(ob, smts)
+
+
+def discharge_records(recs, workers=None, timeout_ms=None):
+    timeout_ms = timeout_ms or TIMEOUT_MS
+    workers = workers or min(14, os.cpu_count() or 4)
+    todo = []
+    for i, r in enumerate(recs):
+        if r.status == "trivial":
+            continue
+        if r.kind.startswith("canary"):
+            todo.append((i, r.smts, 1500, (0,)))
+        else:
+            todo.append((i, r.smts, timeout_ms, (0, 7, 42)))
+    if todo:
+        from concurrent.futures import ThreadPoolExecutor
+        with ThreadPoolExecutor(max_workers=min(workers, len(todo))) as pool:
+            results = list(pool.map(_run, todo))
+        for idx, status, info, ms, backend in results:
+            r = recs[idx]
+            r.status, r.time_ms, r.backend, r.model = status, ms, backend, info
+    return recs
+
+
 def discharge(obls, workers=None, timeout_ms=None, second_backend=False):
     """sets ob.status in {'unsat','sat','unknown','trivial','error'}"""
     timeout_ms = timeout_ms or TIMEOUT_MS
-    workers = workers or min(16, os.cpu_count() or 4)
+    workers = workers or min(14, os.cpu_count() or 4)
     todo = []
     pax, sax = None, None
     for i, ob in enumerate(obls):
